@@ -130,6 +130,12 @@ class ConcreteEx:
     def inputs_value(self, name, default=0):
         return self.inputs.get(name, default)
 
+    def concrete_randomness(self):
+        pass
+
+    def no_div_witness(self):
+        pass
+
     def prefer_int(self, on=True):
         pass
 
@@ -255,6 +261,17 @@ def _install_explorer_api():
             return default
         return SymInt(v, -(1 << (v.size() - 1)), (1 << (v.size() - 1)) - 1)
 
+    def concrete_randomness(self):
+        """Blinding factors / aux data come from the real CSPRNG (for obligations whose point arithmetic runs concretely)."""
+        instr.RANDOM_SYMBOLIC = False
+
+    def no_div_witness(self):
+        """Keep x // c and x % c as plain division terms (no witness constraints in the path condition): for obligations
+        that compute but never examine a wide quotient."""
+        core.DIV_WITNESS = False
+
+    E.no_div_witness = no_div_witness
+    E.concrete_randomness = concrete_randomness
     E.inputs_value = inputs_value
     E.unstubbed = unstubbed
 
